@@ -161,6 +161,7 @@ def run(ctx, R):
         lines_follow_consumed_newlines(F, R, tag)
         layout_then_eof(F, R, tag)
         unknown_position_is_not_past(F, R, tag)
+        buffered_position(F, R, tag)
 
 
 def lines_follow_consumed_newlines(F, R, tag):
@@ -268,3 +269,40 @@ def unknown_position_is_not_past(F, R, tag):
     R.ob("C19:read_term:end-of-input-answered-on-every-path%s" % tag, covered,
          "read_term_eof_handler has a path that neither unifies end_of_file nor runs the eof_action (taken by streams that cannot tell their position: pipes, sockets): "
          "read/2 at the end of such a stream succeeds and leaves the term unbound", F.where(eh))
+
+
+def buffered_position(F, R, tag):
+    """Text streams read through a CharReader, which takes a chunk (up to 8 KiB) out of the underlying reader at once. The
+    position of such a stream — and whether it is at its end — is the underlying reader's position MINUS what the
+    CharReader still holds (rem_buf_len). Every arm of Stream::position / position_relative_to_end that computes from an
+    underlying position for a CharReader-wrapped kind must subtract it (directly or in the helper it calls)."""
+    variants = {v["name"]: v for v in streams.stream_variants(F)} if isinstance(streams.stream_variants(F), list) and streams.stream_variants(F) and isinstance(streams.stream_variants(F)[0], dict) else None
+    n = 0
+    for fname in ("position", "position_relative_to_end"):
+        fn = F.find_impl("Stream", None, fname)
+        body = F.hir(fn)["body"]
+        for m in matches_in(body, src=None):
+            for arm in m["arms"]:
+                vs = [(res_name(l) or "").rsplit("::", 1)[-1] for l in walk(arm["pat"]) if isinstance(l, dict) and "streams::Stream::" in (res_name(l) or "")]
+                if not vs:
+                    continue
+                reads_pos = [x for x in walk(arm["body"]) if (x["k"] == "MethodCall" and x["name"] in ("position", "stream_position")) or
+                             (x["k"] == "Call" and (x.get("resolved") or x.get("callee") or "").endswith("streams::cursor_position"))]
+                if not reads_pos:
+                    continue
+                # is the payload a CharReader? look at the types mentioned in the arm
+                tys = " ".join(str(x.get("ty") or "") + str(x.get("adj_ty") or "") for x in walk(arm["body"]))
+                if "CharReader<" not in tys:
+                    continue
+                direct = any(x["k"] == "MethodCall" and x["name"] == "rem_buf_len" for x in walk(arm["body"]))
+                via = False
+                for x in reads_pos:
+                    r = x.get("resolved") or x.get("callee") or ""
+                    if r in F.items and F.items[r]["file"].startswith("src/") and any(y["k"] == "MethodCall" and y["name"] == "rem_buf_len" for y in walk(F.hir(r)["body"])):
+                        via = True
+                n += 1
+                R.ob("C19:buffered-position:%s:%s:pending-buffer-subtracted%s" % (fname, "|".join(vs), tag), direct or via,
+                     "Stream::%s computes the position of a %s stream from its underlying reader without subtracting what the CharReader has buffered: after the first "
+                     "character of an in-memory user_input the stream reports position = length and end_of_stream = at, and every later read answers end_of_file"
+                     % (fname, "|".join(vs)), "%s (line %s)" % (F.where(fn), arm["ln"]))
+    R.floor("position computations of buffered stream kinds%s" % tag, n, 2)
